@@ -36,6 +36,8 @@ pub struct Profile {
     pub p_nonlot: f64,
     pub many_orders: bool,
     pub marker_round_robin: bool,
+    /// share of worlds that start with a large seeded bid book (more than 30 bids)
+    pub p_bulk_book: f64,
 }
 
 impl Profile {
@@ -64,6 +66,7 @@ impl Profile {
             p_nonlot: 0.35,
             many_orders: false,
             marker_round_robin: false,
+            p_bulk_book: 0.0,
         }
     }
     pub fn for_property(p: &str) -> Profile {
@@ -143,10 +146,12 @@ impl Profile {
                 f.p_nonlot = 0.5;
             }
             "C14" => {
+                f.p_bulk_book = 0.01;
                 f.p_migrate_run = 1.0;
                 f.max_steps = 40;
             }
             "C15" => {
+                f.p_bulk_book = 0.04;
                 f.p_migrate_run = 1.0;
                 f.p_twin = 0.8;
                 f.p_fee_bid = 0.8;
@@ -186,6 +191,11 @@ impl Px {
 }
 
 pub fn respell(p: &str, rng: &mut Rng) -> String {
+    if rng.chance(0.12) {
+        // far more decimals than any decimal type holds, all of them zero
+        let z = "0".repeat(rng.range(20, 40) as usize);
+        return if p.contains('.') { format!("{}{}", p, z) } else { format!("{}.{}", p, z) };
+    }
     match rng.below(4) {
         0 => {
             if p.contains('.') {
@@ -206,10 +216,11 @@ pub fn respell(p: &str, rng: &mut Rng) -> String {
     }
 }
 
-const ACCOUNTS: [&str; 9] = ["alice", "bob", "carol", "dave", "erin", "frank", "grace", "heidi", "ivan"];
+// some names contain others ("bob" in "bobby", "dave" in "dave_2"): substring tests are not membership tests
+const ACCOUNTS: [&str; 9] = ["alice", "bob", "carol", "dave", "erin", "bobby", "grace", "dave_2", "ivan"];
 const RATES_PLAIN: [&str; 8] = ["0.01", "0.02", "0.001", "0.0125", "0.1", "0.003", "0.07", "0.2"];
 const RATES_TIE: [&str; 10] = ["0.5", "0.25", "0.05", "0.005", "0.125", "0.0005", "0.15", "0.35", "0.050", "0.75"];
-const RATES_EDGE: [&str; 4] = ["0", "0.0000001", "1", "0.99"];
+const RATES_EDGE: [&str; 9] = ["0", "0.0000001", "1", "0.99", "1.5", "2", "0.0099999999999999999", "0.0100000000000000001", "0.3333333333333333333"];
 
 pub struct WorldGen {
     pub spec: WorldSpec,
@@ -292,9 +303,10 @@ pub fn gen_world(seed: u64, run: u64, prof: &Profile) -> WorldGen {
         (e, a, "fee_ask_acct".to_string(), "fee_bid_acct".to_string())
     };
     let nconv = if r.chance(prof.p_convertible.max(0.15)) { r.range(1, 2) as usize } else { 0 };
-    let convs: Vec<String> = ["cnva", "cnvb"][..nconv].iter().map(|s| s.to_string()).collect();
+    // "xbase" contains "base", "nusd" contains "usd"
+    let convs: Vec<String> = ["cnva", "xbase"][..nconv].iter().map(|s| s.to_string()).collect();
     let nq = r.pick_weighted(&[6, 3, 1]) + 1;
-    let quotes: Vec<String> = ["usd", "eur", "gbp"][..nq].iter().map(|s| s.to_string()).collect();
+    let quotes: Vec<String> = ["usd", "nusd", "eur"][..nq].iter().map(|s| s.to_string()).collect();
     let base = "base".to_string();
     let precision = *r.pick(&[0u32, 0, 0, 0, 1, 2, 2, 3, 6, 9, 18]);
     let inc_c = *r.pick(&[1u128, 1, 1, 2, 5, 10, 10, 25, 100]);
@@ -427,7 +439,10 @@ pub fn gen_world(seed: u64, run: u64, prof: &Profile) -> WorldGen {
         inst_mutated,
     };
     if !inst_mutated && r.chance(prof.p_legacy_seed) {
-        seed_legacy(&mut wg, &mut r, &accounts, &approvers);
+        seed_legacy(&mut wg, &mut r, &accounts, &approvers, false);
+    }
+    if !inst_mutated && r.chance(prof.p_bulk_book) {
+        seed_legacy(&mut wg, &mut r, &accounts, &approvers, true);
     }
     wg
 }
@@ -508,16 +523,23 @@ fn set_or_remove(m: &mut Value, k: &str, v: Value) {
     }
 }
 
-fn seed_legacy(wg: &mut WorldGen, r: &mut Rng, accounts: &[String], approvers: &[String]) {
-    let n = r.range(1, 3);
+fn seed_legacy(wg: &mut WorldGen, r: &mut Rng, accounts: &[String], approvers: &[String], bulk: bool) {
+    let n = if bulk { r.range(32, 70) } else { r.range(1, 3) };
     let inc = wg.inc_c * 10u128.pow(wg.precision);
     for _ in 0..n {
-        let id = r.uuid().replace('-', "");
+        let mut id = r.uuid();
+        if !bulk || r.chance(0.3) {
+            id = id.replace('-', "");
+            if r.chance(0.2) {
+                // carried over from a version that kept whatever spelling the client sent
+                id = id.to_uppercase();
+            }
+        }
         let px = gen_px(wg, r, 0);
         let size = inc * r.range(1, 12) as u128;
         let owner = r.pick(accounts).clone();
         let quote = r.pick(&wg.quotes).clone();
-        if r.chance(0.5) {
+        if !bulk && r.chance(0.5) {
             let conv = !wg.convs.is_empty() && r.chance(0.4);
             let class = if !conv {
                 json!("Basic")
@@ -872,8 +894,12 @@ fn gen_migrate(sim: &Sim, r: &mut Rng, prof: &Profile) -> Step {
         }
         m["approvers"] = json!(v);
     }
+    let fee_bids_open = sim.book.bids.values().any(|b| b.fee.is_some());
     for side in ["ask", "bid"] {
-        if r.chance(0.4) {
+        if side == "bid" && fee_bids_open && sim.cfg.bid_fee.is_some() && r.chance(0.2) {
+            m["bid_fee_rate"] = json!("");
+            m["bid_fee_account"] = json!("");
+        } else if r.chance(0.4) {
             let (rt, ac) = if r.chance(0.7) {
                 // mostly valid pairs
                 if r.chance(0.15) {
@@ -914,6 +940,40 @@ fn gen_migrate(sim: &Sim, r: &mut Rng, prof: &Profile) -> Step {
 
 fn restricted(sim: &Sim, d: &str) -> bool {
     sim.chain.querier.markers.get(d).copied().unwrap_or(0) == 2
+}
+
+/// another spelling of the same UUID (none of them is the key the order is stored under)
+fn other_spelling(id: &str, r: &mut Rng) -> String {
+    let hyph = |h: &str| -> String {
+        if h.len() == 32 {
+            format!("{}-{}-{}-{}-{}", &h[0..8], &h[8..12], &h[12..16], &h[16..20], &h[20..32])
+        } else {
+            h.to_string()
+        }
+    };
+    match r.below(6) {
+        0 => id.to_uppercase(),
+        1 => {
+            if id.contains('-') {
+                id.replace('-', "")
+            } else {
+                hyph(id)
+            }
+        }
+        2 => format!("{{{}}}", id),
+        3 => format!("urn:uuid:{}", id),
+        4 => {
+            // mixed case
+            id.chars().enumerate().map(|(i, c)| if i % 3 == 0 { c.to_ascii_uppercase() } else { c }).collect()
+        }
+        _ => {
+            if id.contains('-') {
+                id.replace('-', "").to_uppercase()
+            } else {
+                hyph(id).to_uppercase()
+            }
+        }
+    }
 }
 
 fn random_id(r: &mut Rng, view: &Shadow, closed: &[String]) -> String {
@@ -972,6 +1032,17 @@ fn decide(
                 price = respell(&price, r);
             }
             let mut size = inc * r.range(1, 20) as u128;
+            let whale = wg.precision == 0 && cfg.bid_fee.is_none() && cfg.ask_fee.is_none() && r.chance(0.03);
+            if whale {
+                {
+                    let s0 = 10u128.pow(26) * r.range(1, 200) as u128 + r.below(1_000_000) as u128 * inc;
+                    size = s0 - s0 % inc;
+                }
+            }
+            let px = if whale { Px { units: 1 + r.below(3) as u128, d: 0 } } else { px };
+            if whale {
+                price = px.render();
+            }
             let mut id = r.uuid();
             let mut funds = if restricted(sim, &base) { vec![] } else { vec![CoinS::new(size, &base)] };
             if r.chance(prof.p_mutate) {
@@ -1011,10 +1082,19 @@ fn decide(
                 price = respell(&price, r);
             }
             let mut size = inc * r.range(1, 20) as u128;
+            let whale = wg.precision == 0 && cfg.bid_fee.is_none() && cfg.ask_fee.is_none() && r.chance(0.03);
+            let px = if whale { Px { units: 1 + r.below(3) as u128, d: 0 } } else { px };
+            if whale {
+                {
+                    let s0 = 10u128.pow(26) * r.range(1, 200) as u128 + r.below(1_000_000) as u128 * inc;
+                    size = s0 - s0 % inc;
+                }
+                price = px.render();
+            }
             let total = px.units * size / 10u128.pow(px.d);
             let mut quote_size = total;
             let fee_amt = cfg.bid_fee.as_ref().and_then(|f| fee_amount(&f.rate, total)).unwrap_or(0);
-            let mut fee: Value = if fee_amt > 0 { json!({"denom": quote, "amount": fee_amt.to_string()}) } else { Value::Null };
+            let mut fee: Value = if fee_amt > 0 || r.chance(0.08) { json!({"denom": quote, "amount": fee_amt.to_string()}) } else { Value::Null };
             let mut base = cfg.base_denom.clone();
             let mut id = r.uuid();
             let mut funds = if restricted(sim, &quote) { vec![] } else { vec![CoinS::new(total + fee_amt, &quote)] };
@@ -1213,7 +1293,7 @@ fn decide(
                         }
                     }
                     2 => id2 = random_id(r, view, closed),
-                    _ => id2 = if id2.contains('-') { id2.replace('-', "") } else { id2.to_uppercase() },
+                    _ => id2 = other_spelling(&id2, r),
                 }
             }
             let k = if ask_side { "cancel_ask" } else { "cancel_bid" };
@@ -1256,7 +1336,7 @@ fn decide(
                             size = Some(rem + inc)
                         }
                     }
-                    2 => id2 = random_id(r, view, closed),
+                    2 => id2 = if r.chance(0.5) { random_id(r, view, closed) } else { other_spelling(&id2, r) },
                     3 => size = Some(rem + inc),
                     4 => size = Some(0),
                     5 => size = Some(if inc > 1 { inc * r.range(0, (rem / inc) as u64) as u128 + 1 + r.below((inc - 1).min(u64::MAX as u128) as u64) as u128 } else { rem + 1 }),
@@ -1318,11 +1398,20 @@ fn gen_modify(sim: &Sim, cfg: &Cfg, r: &mut Rng, accounts: &[String]) -> (String
             2 => v.reverse(),
             3 => v = vec![],
             4 => v = vec![r.pick(accounts).clone()],
-            _ => {
-                if r.chance(0.3) {
-                    v.push("Bad-Addr".into())
+            _ => match r.below(6) {
+                0 => v.push("Bad-Addr".into()),
+                1 => v = vec!["".into()],
+                2 => v.insert(r.below(v.len() as u64 + 1) as usize, "".into()),
+                3 => {
+                    // a kept approver named twice, another one silently missing
+                    if v.len() >= 2 {
+                        let keep = v[0].clone();
+                        v[1] = keep;
+                        v.push(r.pick(accounts).clone());
+                    }
                 }
-            }
+                _ => {}
+            },
         }
         m["approvers"] = json!(v);
     }
@@ -1337,7 +1426,12 @@ fn gen_modify(sim: &Sim, cfg: &Cfg, r: &mut Rng, accounts: &[String]) -> (String
             }
             2 => v = vec![],
             3 => v.reverse(),
-            _ => v = vec![r.pick(accounts).clone(), sender.clone()],
+            _ => match r.below(4) {
+                0 => v = vec!["".into()],
+                1 => v = vec!["".into(), "".into()],
+                2 => v.insert(r.below(v.len() as u64 + 1) as usize, "".into()),
+                _ => v = vec![r.pick(accounts).clone(), sender.clone()],
+            },
         }
         m["executors"] = json!(v);
     }
